@@ -13,7 +13,9 @@ def key_of(c):
 def run(tier):
     rep = vlib.Report(PROP, tier)
     binary = vlib.build_harness()
-    common.mc_replay(rep, binary, PROP, "MC_C03", keyf=key_of)
+    d, cases, outs = common.mc_replay(rep, binary, PROP, "MC_C03", keyf=key_of)
+    # (b) impl -> spec: value-level mutations of the accepted payloads, the crate's answer compared with the specification's
+    common.dfuzz(rep, binary, PROP, cases, 3000 if tier != "thorough" else 60000)
     return rep.finish("model_checking",
                       "cases = payloads built from pools of well-formed and malformed messages (lists of 0..3 items + tails, "
                       "every truncation of well-formed payloads, heartbeat/application-data/unknown content types) x "
